@@ -709,6 +709,7 @@ class Kernel:
         self.probes = collections.Counter()
         self.pipe_log = []
         self.cut_tasks = []
+        self.kills = []          # (killer pid, target pid, signal) of every kill() system call
 
     def digest(self):
         h = 0
@@ -874,6 +875,8 @@ class Kernel:
         p = self.procs.get(pid)
         if p is None or p.reaped:
             raise ProcessLookupError(errno.ESRCH, "No such process")
+        cur0 = self.s.cur()
+        self.kills.append((cur0.proc.pid if cur0 is not None else 0, pid, sig))
         self.deliver(p, sig)
         cur = self.s.cur()
         if cur is not None and cur.proc is p and not p.alive:
